@@ -11,7 +11,7 @@
                 otherwise obs = model
    (2 text obs)                               DDE.compact_source
    (3 kinds flags o0 o1 l0 r0 l1 r1)          whole pipeline, metamorphic
-        kinds = rewrite kind ids applied, flags = per rewrite (has_pic has_usage has_odo filler inside)
+        kinds = rewrite kind ids applied, flags = per rewrite (has_pic has_usage has_odo filler inside followed)
         o0 / o1 = observation of the original / rewritten copybook (opaque trees),
         l0, l1 = the card images, r0, r1 = reference_format's result on them
         good  = o0 = o1          (the property itself; no model of the clause parser: PARTIAL)
@@ -112,6 +112,7 @@ Definition known_kind (kind : Z) (fl : sx) : option Z :=
   let has_usage := as_bool (nth_sx 1 fl) in
   let filler := as_bool (nth_sx 3 fl) in
   let inside := as_bool (nth_sx 4 fl) in
+  let followed := as_bool (nth_sx 5 fl) in
   match kind with
   | 25 => if inside then Some 1 else None                     (* numbered directive inside an entry *)
   | 26 => if inside then Some 2 else None                     (* slash comment inside an entry *)
@@ -120,6 +121,7 @@ Definition known_kind (kind : Z) (fl : sx) : option Z :=
   | 22 => Some 5                                              (* VALUE literal holding a usage word / PIC *)
   | 8 => Some 6                                               (* word continued over two lines *)
   | 29 => Some 7                                              (* INDEXED BY without a KEY phrase *)
+  | 15 => if followed then Some 8 else None                   (* KEY ... INDEXED BY x followed by another clause *)
   | _ => None
   end.
 
